@@ -46,6 +46,11 @@ CHECKS = {
             "All sequences of up to N documents (quick 4, thorough 5) over 16 document kinds (valid maps, empty, '~', 'null', defines an anchor, aliases an anchor of an earlier document, type error in the first / last node, syntax error, unterminated flow, errors at the very first token, '...' end marker with trailing comment) rendered with 3 separator styles. For every history the real from_multiple, from_slice_multiple, read (drained with a hard item cap), from_str and from_reader are run on the stream and compared with the list obtained by classifying each document on its own text: batch = values of the non-null documents or Err; iterator = the same items in order, continuing after type-level errors, ending after the first syntax-level error, always terminating; single-document entry points reject any second document. stateright explores the full space (1+16+16^2+...), is run twice (state counts must agree) and its three 'sometimes' coverage properties must be discovered.",
             "Trusted: classification of a document on its own text (raw parser rejects = syntax-level). Whether the iterator can continue after an 'unknown anchor' parser error is treated as unspecified (either is accepted).",
             "DESIGN.md §3 C11"),
+    "C14": ("model_checking",
+            "exhaustive enumeration of all set partitions of the strong slots of a fixed layout into shared allocations x payload kinds x Rc|Arc x weak-edge sets; pointer-equality oracle on the real round trip",
+            "A document type with six strong anchor slots (two struct fields, two sequence elements, a map value, a field of a nested struct) and a list of weak anchors. Every set partition of the first k slots (quick k<=4, thorough all 203 partitions of 6) into shared allocations, x 6 payload kinds (String, Vec, BTreeMap, Option (None and Some), unit, a struct that itself holds an RcAnchor) x Rc|Arc x weak-edge sets (none; one edge to each live class or to a dropped target; all pairs) is serialized and read back by the real library: for every pair of slots Rc::ptr_eq / Arc::ptr_eq after must equal before, values must be equal, live weak edges must upgrade to the right allocation, dangling ones must stay dangling, and each shared payload must be emitted exactly once. Chains of 1..3 (thorough 4) nodes through RcRecursive/ArcRecursive with every back edge (Option<RcRecursion>) must be restored.",
+            "Trusted: Rc::ptr_eq / Arc::ptr_eq as the sharing observer. Slots beyond k are unshared allocations of their own.",
+            "DESIGN.md §3 C14"),
     "C15": ("model_checking",
             "explicit-state BFS (stateright) over call histories; each history replayed on a fresh OS thread with the real library as transition function; last call compared with the same call made first",
             "Call alphabet of 41 calls: 17 base calls (successful parse, failure midway through an anchored node, failure inside an RcAnchor context, failure inside an RcRecursive in-progress context, budget breach, alias limit, missing field, a visitor that panics mid-document (caught), a streaming iterator advanced once and dropped, from_multiple failing on its second document, serialization with shared anchors, serialization into a failing writer, closure helper returning early, Rc sharing / weak / recursive parses, and two public probes that read the thread-local error-location fallback and the anchor-context stack) plus 3 outer parses x (no nested call + 7 calls nested inside a user Deserialize impl between an anchor definition and its alias). All histories of length <= 2 (quick) / <= 3 (thorough, 70k histories) are replayed on fresh OS threads; the observation of the last call (value, error variant, line/column, message, pointer-sharing) must equal its observation as first call on a fresh thread; nested calls must leave the outer result unchanged and return what they return alone. Run twice, state counts must agree.",
